@@ -31,6 +31,8 @@ def run(chk):
     cfg = CFG(cb.node)
     P, IV = cb.params[0], cb.params[1]  # the frame and the interval name (positional API)
     res, _so = make_resolver(cb.node)
+    from engine.pattern import Expander
+    cbx = Expander(cb.node)
     pc = PatCtx(cb.node)
     ok_len = pc.has(f"_F_ = pd.Series(list(({P}.index[1:] - {P}.index[:-1]).days) + [np.nan], index={P}.index)")
     r1.require(ok_len, f"{cb.key}|period-length", cb.where(),
@@ -49,7 +51,8 @@ def run(chk):
             if isinstance(sub, ast.Subscript) and unparse(sub.value) in (P, P + ".loc"):
                 found.setdefault(iv, {})["keep"] = (mask_terms(sub.slice, res, s), s)
         if isinstance(s, ast.If):
-            sub = [n for n in ast.walk(s.test) if isinstance(n, ast.Subscript) and unparse(n.value) in (P, P + ".loc") and mask_terms(n.slice, res, s) is not None]
+            test_x = cbx.expand(s.test, s)  # `off = data[mask]; if len(off) > 0:` reads like `if len(data[mask]) > 0:`
+            sub = [n for n in ast.walk(test_x) if isinstance(n, ast.Subscript) and unparse(n.value) in (P, P + ".loc") and mask_terms(n.slice, res, s) is not None]
             if sub and any(isinstance(c, ast.Call) and unparse(c.func).endswith("warnings.append") for b in s.body for c in ast.walk(b)):
                 found.setdefault(iv, {})["warn"] = (mask_terms(sub[0].slice, res, s), s)
     for iv, (lo, hi) in spec.items():
@@ -114,19 +117,8 @@ def run(chk):
     # ------------------------------------------------------------------ R08.2
     br = as_freq_branches(chk)
     af = chk.repo.func(DPU, "as_freq")
-    r2.require(br.get("cumulative") == {"value": "sum", "coverage": "count"}, f"{af.key}|cumulative-branch", af.where(),
-               f"as_freq(series_type='cumulative') must aggregate the spread series with sum and count its coverage; found {br.get('cumulative')}", sample={"branch": "cumulative", "aggregators": br.get("cumulative")})
-    r2.require(br.get("instantaneous") == {"value": "mean", "coverage": "count"}, f"{af.key}|instantaneous-branch", af.where(),
-               f"as_freq(series_type='instantaneous') must aggregate with mean; found {br.get('instantaneous')}", sample={"branch": "instantaneous", "aggregators": br.get("instantaneous")})
-    d = af.param_defaults().get("series_type")
-    r2.require(d is not None and const_str(d) == "cumulative", f"{af.key}|default-cumulative", af.where(), "as_freq's default series_type must be cumulative (meter data)")
-    from rules.kinds import as_freq_names
-    nm = as_freq_names(chk)
-    r2.require(bool(nm), f"{af.key}|coverage-definition", af.where(), "coverage must be the number of atomic samples present divided by the number in the period")
-    R = nm.get("R", "resampled")
-    mpc = PatCtx(af.node, bindings={"_R_": R})
-    r2.require(mpc.has("_R_ = _R_[_AS_.resample(freq, origin=_S_.index[0]).first().notnull()].reindex(_R_.index)"), f"{af.key}|all-missing-stays-missing", af.where(),
-               "a target period with no data must stay missing (sum of nothing is not 0 usage): the sums are kept only where the period's first atomic sample is present, then reindexed")
+    from rules.asfreq_absint import check as check_as_freq
+    check_as_freq(chk, r2, r3)
     sites = rescale_sites(chk, ds)
     r2.require(len(sites) == 1, f"{ds.key}|rescale-present", ds.where(), "a day covered for more than half must be scaled by 1/coverage: dataset.value / dataset.coverage on the kept rows")
     for s, base in sites:
@@ -148,14 +140,6 @@ def run(chk):
     r2.inst(f"package|other-rescale-sites={n_other}")
 
     # ------------------------------------------------------------------ R08.3
-    apc = PatCtx(af.node)
-    SER = af.params[0]
-    r3.require(apc.has(f"_S_ = remove_duplicates({SER})"), f"{af.key}|dedup", af.where(), "as_freq must de-duplicate its input first")
-    r3.require(apc.has("_TD_ = (_S_.index[1:] - _S_.index[:-1]).append(pd.TimedeltaIndex([pd.NaT]))"), f"{af.key}|own-forward-interval", af.where(),
-               "each reading's interval must be the forward difference to the next timestamp (the last interval is open)")
-    r3.require(apc.has("_AS_ = (_S_ * (pd.Timedelta(atomic_freq).total_seconds() / _TD_.total_seconds())).asfreq(atomic_freq, method='ffill')"), f"{af.key}|spread-factor", af.where(),
-               "a reading must be spread as value * (atomic interval / own interval) and the rate carried forward over the reading's interval (asfreq(atomic_freq, method='ffill'))")
-    r3.inst(f"{af.key}|constant-rate")
     bm = chk.repo.func(BILLING_DATA, "_BillingData._compute_meter_value_df")
     bpc = PatCtx(bm.node)
     r3.require(bpc.has("_M_ = as_freq(_M_['value'], 'D').to_frame('value')") and bpc.has("_M_ = _M_[:-1]", bind=False), f"{bm.key}|spread-to-days", bm.where(),
